@@ -219,11 +219,14 @@ const badChars = "ghijklmnopqrstuvwxyzGHIJKLMNOPQRSTUVWXYZ_#@!,;"
 
 func genCase(t *rapid.T) Case {
 	var c Case
-	n := rapid.IntRange(1, 12).Draw(t, "nRecords")
+	n := rapid.OneOf(rapid.IntRange(1, 12), rapid.IntRange(1, 12), rapid.IntRange(1, 12), rapid.IntRange(1, 12), rapid.IntRange(1, 12), rapid.IntRange(300, 1500)).Draw(t, "nRecords")
 	var lines [][]byte
 	for i := 0; i < n; i++ {
 		ts := rapid.OneOf(rapid.Int32Range(0, 5000), rapid.Int32(), rapid.SampledFrom([]int32{0, -1, 1, 2147483647, -2147483648, 10, 99, 100})).Draw(t, "ts")
 		ln := rapid.OneOf(rapid.IntRange(1, 4), rapid.IntRange(1, 40), rapid.IntRange(1, 2000)).Draw(t, "msgLen")
+		if n > 12 {
+			ln = 1 + ln%12 // very many records: short messages
+		}
 		var msg []byte
 		if ln <= 24 {
 			msg = rapid.SliceOfN(rapid.Byte(), ln, ln).Draw(t, "msg")
@@ -302,7 +305,7 @@ func genCase(t *rapid.T) Case {
 }
 
 var streams = ev.NewCheck("C19", "line-streams",
-	"rapid: 1..12 records (time stamps over int32 incl. negatives and extremes, messages of 1..2000 arbitrary bytes) encoded like the driver (\"%d %X\\n\"); optionally lines damaged by: one hex digit removed, a hex digit or a time-stamp digit replaced by a character from [g-zG-Z_#@!,;], separator removed, newline removed (two lines merge / stream ends unterminated), message removed, time stamp outside int32, damaged time stamp followed by a complete record on the same line, doubled separator, separator inside the data; read from memory, one byte per call, a single read and 1..4 random partitions, each also with the last bytes delivered together with io.EOF; oracle = line model (split at newline; well formed iff -?[0-9]+ SP ([0-9A-F]{2})+): calling ReadAndConvert until io.EOF yields exactly the records of the well-formed lines in order, at least one error per malformed line, no panic, terminates within len(stream)+3 calls, the same outcome sequence for every fragmentation, and also when two copies of the stream are decoded alternately call by call (no state shared between sources); non-trivial = >= 2 records and (a read boundary inside a line or a well-formed line after a malformed one); distinct by stream bytes",
+	"rapid: 1..12 records, in one case of six 300..1500 short ones (time stamps over int32 incl. negatives and extremes, messages of 1..2000 arbitrary bytes) encoded like the driver (\"%d %X\\n\"); optionally lines damaged by: one hex digit removed, a hex digit or a time-stamp digit replaced by a character from [g-zG-Z_#@!,;], separator removed, newline removed (two lines merge / stream ends unterminated), message removed, time stamp outside int32, damaged time stamp followed by a complete record on the same line, doubled separator, separator inside the data; read from memory, one byte per call, a single read and 1..4 random partitions, each also with the last bytes delivered together with io.EOF; oracle = line model (split at newline; well formed iff -?[0-9]+ SP ([0-9A-F]{2})+): calling ReadAndConvert until io.EOF yields exactly the records of the well-formed lines in order, at least one error per malformed line, no panic, terminates within len(stream)+3 calls, the same outcome sequence for every fragmentation, and also when two copies of the stream are decoded alternately call by call (no state shared between sources); non-trivial = >= 2 records and (a read boundary inside a line or a well-formed line after a malformed one); distinct by stream bytes",
 	genCase, run)
 
 func TestPropLineStreams(t *testing.T) { streams.Rapid(t, 2500, 30000) }
